@@ -359,6 +359,9 @@ func (c *Ctx) writeEvidence() {
 		cov["rule"] = ""
 	}
 	sort.Strings(c.assume)
+	if c.assume == nil {
+		c.assume = []string{}
+	}
 	ev := map[string]any{
 		"property_id": c.ID,
 		"tier":        c.Tier,
